@@ -349,8 +349,51 @@ def run(ctx, anchors=None):
         ctx.inst(bool(reach & echo_fns), "R12.5", "echo-at-counter:" + fname, f.loc(), "%s echoes the line at the position counter" % fname,
                  "%s no longer echoes script_lines[curr_op_seq]" % fname)
 
+    # ---- R12.8 the numbered listing shows every operation in full (it is "the exact decoding"): a fixed-size buffer that
+    # receives the hex rendering of a push must hold the largest legal push - 2 * MAX_SCRIPT_ELEMENT_SIZE digits - plus whatever
+    # precedes it in that buffer and the terminator. (The two-column pane abbreviates long values on purpose; it is not judged.)
+    ctx.rule("R12.8", "the listing's line buffer holds the hex of a maximum-size push plus its prefix")
+    mse = fb.var("MAX_SCRIPT_ELEMENT_SIZE").get("value")
+    if not mse:
+        raise AnalysisBroken("R12.8: MAX_SCRIPT_ELEMENT_SIZE not found")
+    n128 = 0
+    for n in main.nodes():
+        if not (astq.is_call(n) and n.get("n") in ("snprintf", "sprintf") and any(x["k"] == "call" and x.get("n") == "HexStr" for a in n.get("args", [])[2:] if a for x in walk(a))):
+            continue
+        dst = n["args"][0]
+        while dst is not None and dst.get("k") in ("cast", "paren"):
+            dst = dst["e"]
+        arr = None
+        if dst is not None and dst.get("k") == "ref":
+            for dn in main.nodes():
+                if dn["k"] == "decl":
+                    for d in dn["decls"]:
+                        if d["d"] == dst.get("d"):
+                            if d.get("arraysize"):
+                                arr = d
+                            elif d.get("init") is not None:
+                                i0 = d["init"]
+                                while i0 is not None and i0.get("k") in ("cast", "paren"):
+                                    i0 = i0["e"]
+                                for dn2 in main.nodes():
+                                    if dn2["k"] == "decl":
+                                        for d2 in dn2["decls"]:
+                                            if i0 is not None and d2["d"] == i0.get("d") and d2.get("arraysize"):
+                                                arr = d2
+        if arr is None:
+            continue
+        n128 += 1
+        ctx.site()
+        need = 2 * mse + 1 + 8      # '#' + up to five digits + blank, the digits, the terminator
+        ctx.inst(arr["arraysize"] >= need, "R12.8", "listing-buffer-holds-a-maximal-push@%s" % main.name, main.loc(n),
+                 "%s[%d] holds 2 x %d hex digits plus the line prefix" % (arr["n"], arr["arraysize"], mse),
+                 "the listing formats the hex of a push into %s[%d]: a push of more than %d bytes (up to %d are legal) is cut short, so `print` does not show the script's exact decoding" %
+                 (arr["n"], arr["arraysize"], (arr["arraysize"] - 8) // 2, mse))
+    ctx.floor("R12.8", n128, 1, "formatted writes of a push's hex into a fixed buffer in the listing code")
+
 
 MUTANTS = [
+    dict(name="listing-buffer-too-small", file="btcdeb.cpp", find="    char buf[16 + 2 * MAX_SCRIPT_ELEMENT_SIZE];", replace="    char buf[1024];", expect=["R12.8:listing-buffer-holds-a-maximal-push"]),
     dict(name="commitment-counted-under-narrower-guard", file="btcdeb.cpp", find="    } else if (env->sigversion == SigVersion::TAPSCRIPT) {\n        // add commitment phase",
          replace="    } else if (env->sigversion == SigVersion::TAPSCRIPT && env->tce && env->tce->m_path_len > 0) {\n        // add commitment phase", expect=["R12.1:commitment-lines-counted"]),
     dict(name="failed-step-keeps-pc", file="debugger/interpreter.cpp", before="bool RewindScript(InterpreterEnv& env)", find="    env.pc = env.pc_history.back();\n", replace="",
